@@ -463,6 +463,36 @@ def split_spare (X : Ctx) : VM (Nat × Nat) := do
   | .ret _ => pure (0, 0)
   | .cont env => pure (env.v_len, env.v_capacity - env.v_len)
 
+/-- what `spare_capacity_mut()` (`viaSplit = false`) / the second half of `split_at_spare_mut()` cover: (first slot,
+    number of slots); nothing for a vector without capacity -/
+def spareRoom (X : Ctx) (viaSplit : Bool) : VM (Nat × Nat) :=
+  if viaSplit then do
+    let r ← lift X (Gen.split_at_spare_mut_pre X.env)
+    match r with
+    | .ret _ => pure (0, 0)
+    | .cont env => pure (env.v_len, env.v_capacity - env.v_len)
+  else do
+    let r ← lift X (Gen.spare_capacity_mut_pre X.env)
+    match r with
+    | .ret _ => pure (0, 0)
+    | .cont env => pure (env.v_len, env.v_capacity - env.v_len)
+
+/-- write `xs` into the slots from `base` on and publish them -/
+def fillTail (X : Ctx) (base : Nat) (xs : List Elem) : VM Nat := do
+  let p ← lift X (Gen.as_mut_ptr X.env)
+  forN xs.length (fun i => wr p (base + i) (xs.getD i default))
+  lift X (Gen.set_len X.env (base + xs.length))
+  pure xs.length
+
+/-- the documented use of the spare capacity: write `k` new elements (at most what is spare) through the slice
+    the API hands out, then `set_len`. Returns how many were written. -/
+def fill_spare (X : Ctx) (viaSplit : Bool) (k : Nat) (val : Int) : VM Nat := do
+  let room ← spareRoom X viaSplit
+  let n := min k room.2
+  if n = 0 then pure 0 else do
+    let es ← ((List.range n).map (fun (i : Nat) => val + (i : Int))).mapM mkElem
+    fillTail X room.1 es
+
 /-- `[T]::eq`: lengths first, then element-wise until the first mismatch (one `eq` callback each) -/
 def eqSlices (X : Ctx) : List Elem → List Elem → VM Bool
   | [], [] => pure true
